@@ -75,6 +75,25 @@ type thread struct {
 	moves   uint64
 	h       uint64 // happens-before hash of the thread's history
 	spawns  uint64
+	vc      vclock // vector clock (data-race detection)
+	// unwinding: the thread was killed at teardown and is running its deferred functions;
+	// tracked operations are then no-ops, so that clean-up code (unlock, delete from a
+	// process-wide table, Done) runs to its end instead of being cut off half-way
+	unwinding bool
+	graceOps  int
+}
+
+// die is called by every tracked operation of a thread that was killed at teardown.  The
+// thread is not cut off on the spot: it runs on with every tracked operation a no-op (it is
+// the only thread running), so that the function and the deferred clean-up it was in the
+// middle of (unlock, delete from a process-wide table, Done) finish; after a small budget
+// of further operations it is ended with Goexit (loops, long tails).
+func (t *thread) die() {
+	t.unwinding = true
+	t.graceOps++
+	if t.graceOps > 200 {
+		runtime.Goexit()
+	}
 }
 
 // ThreadInfo describes a thread that was still alive at quiescence.
@@ -132,6 +151,7 @@ type sched struct {
 	nPruned  int
 
 	lastPartner *thread
+	spawnVC     vclock // extra clock for the next spawned thread (timer callbacks)
 }
 
 var s = &sched{}
@@ -186,9 +206,20 @@ func (s *sched) spawn(fn func(), site string, parent int) *thread {
 		pt.spawns++
 		t.h = mix(mix(pt.h, 0xC0FFEE), pt.spawns)
 		pt.h = mix(pt.h, 0x5BA3+pt.spawns)
+		if race.on {
+			t.vc = vclone(pt.vc)
+			pt.tick()
+		}
 	} else {
 		s.timerSeq++
 		t.h = mix(mix(s.objH[kClock], 0x71AE), uint64(len(s.threads)))
+	}
+	if race.on {
+		if s.spawnVC != nil {
+			t.vc = vjoin(t.vc, s.spawnVC)
+			s.spawnVC = nil
+		}
+		t.tick()
 	}
 	s.threads = append(s.threads, t)
 	reg := make(chan struct{})
@@ -208,6 +239,9 @@ func (s *sched) spawn(fn func(), site string, parent int) *thread {
 			if e := recover(); e != nil {
 				if _, ok := e.(abortSignal); ok {
 					return
+				}
+				if t.killed {
+					return // a dying thread running on with no-op operations: whatever it trips over is not an observation
 				}
 				t.panicV = e
 				if s.run != nil {
@@ -259,7 +293,7 @@ func (s *sched) endExecution() {
 func (s *sched) park(t *thread) {
 	<-t.wake
 	if t.killed {
-		runtime.Goexit()
+		t.die()
 	}
 }
 
@@ -267,18 +301,27 @@ func (s *sched) park(t *thread) {
 // when t has been chosen to run and p is enabled.
 func (s *sched) point(t *thread, p *pend) {
 	if t.killed {
-		runtime.Goexit()
+		t.die()
+		return
 	}
 	if s.ended {
 		// execution is over (abort/horizon); park until teardown
 		t.pend = p
 		s.park(t)
+		if t.killed {
+			t.pend = nil
+			return
+		}
 	}
 	s.steps++
 	if s.steps > s.horizon {
 		s.abort("horizon: more than " + strconv.Itoa(s.horizon) + " scheduling points (livelock or non-quiescing execution)")
 		t.pend = p
 		s.park(t)
+		if t.killed {
+			t.pend = nil
+			return
+		}
 	}
 	p.committed = -1
 	if p.kind == opSpin {
@@ -301,7 +344,9 @@ func (s *sched) point(t *thread, p *pend) {
 	next := s.choose(t)
 	if next == nil {
 		s.endExecution()
-		s.park(t) // only returns via Goexit
+		s.park(t) // returns only when the thread is killed at teardown
+		t.pend = nil
+		return
 	}
 	if next != t {
 		s.cur = next
@@ -594,6 +639,8 @@ func (s *sched) runOnce(r *Run, body func(*Run), prefix []int) execResult {
 	s.objX = 0
 	s.costUsed = 0
 	s.pruned = false
+	s.spawnVC = nil
+	raceResetExecution()
 	resetRand()
 	s.active.Store(true)
 
@@ -731,6 +778,7 @@ func Settle() {
 		return
 	}
 	s.point(t, &pend{kind: opSettle, what: "settle"})
+	s.vcJoinAll(t)
 	if s.hbOn {
 		t.h = mix(t.h, s.globalKey())
 	}
@@ -746,6 +794,7 @@ func BlockUntil(what string, pred func() bool) {
 		return
 	}
 	s.point(t, &pend{kind: opBlock, pred: pred, what: what})
+	s.vcJoinAll(t)
 	if s.hbOn {
 		t.h = mix(t.h, s.globalKey())
 	}
